@@ -44,6 +44,12 @@ use crate::{
 use self::hosted::{EventDownlinkFactory, MapDownlinkFactory, ValueDownlinkFactory};
 pub use self::hosted::{EventDownlinkHandle, MapDownlinkHandle, ValueDownlinkHandle};
 
+/// Re-exports for the external verification harness (feature `verif`).
+#[cfg(feature = "verif")]
+pub mod verif_hooks {
+    pub use super::hosted::{MapDownlinkFactory, ValueDownlinkFactory};
+}
+
 struct Inner<LC> {
     address: Address<Text>,
     lifecycle: LC,
